@@ -608,7 +608,7 @@ def graph_flow(v, module, cfg, exe, tag, depth=3, budget=20000, walks=50, walkle
 
     def pre(w):
         # harness-level set-up lines (no expectation) in front of a script, e.g. an address base the model abstracts from
-        return (prefix(rnd) + w) if prefix else w
+        return (prefix(rnd, w) + w) if prefix else w
 
     def gen():
         n = 0
